@@ -9,23 +9,26 @@ EXTENDS OptSlots, Json, IOUtils, TLC
 
 Rec == ndJsonDeserialize(IOEnv.TRACE)
 
-VARIABLES l, arch, remaining
-tvars == <<l, arch, remaining>>
+VARIABLES l, arch, remaining, opt
+tvars == <<l, arch, remaining, opt>>
 
-TraceInit == l = 1 /\ arch = <<>> /\ remaining = <<>>
+TraceInit == l = 1 /\ arch = <<>> /\ remaining = <<>> /\ opt = [kind |-> "none", lr_bits |-> 0]
 
 IsEvent(e) == l <= Len(Rec) /\ Rec[l].event = e /\ l' = l + 1
 r == Rec[l]
 
 \* a new run: every slot of the previous step must have been used
-TraceNet    == IsEvent("Net") /\ remaining = <<>> /\ arch' = r.layers /\ remaining' = <<>>
-TraceUpdate == IsEvent("Update") /\ remaining = <<>> /\ remaining' = ExpectedSlots(arch, r.stepnr) /\ UNCHANGED arch
+\* the driver announces the architecture and the optimizer it attached with set_optimizer
+TraceNet    == IsEvent("Net") /\ remaining = <<>> /\ arch' = r.layers /\ remaining' = <<>> /\ opt' = r.optimizer
+TraceUpdate == IsEvent("Update") /\ remaining = <<>> /\ remaining' = ExpectedSlots(arch, r.stepnr) /\ UNCHANGED <<arch, opt>>
+\* every step of every parameter tensor -- also inside every feedback block -- is a step of THAT optimizer
 TraceOpt ==
   /\ IsEvent("OptUpdate") /\ remaining # <<>>
   /\ LET want == Head(remaining) IN
      r.layer = want.layer /\ r.filter = want.filter /\ r.bias = want.bias /\ r.stepnr = want.stepnr
-  /\ remaining' = Tail(remaining) /\ UNCHANGED arch
-TraceEnd    == IsEvent("End") /\ remaining = <<>> /\ UNCHANGED <<arch, remaining>>
+  /\ r.kind = opt.kind /\ r.lr_bits = opt.lr_bits
+  /\ remaining' = Tail(remaining) /\ UNCHANGED <<arch, opt>>
+TraceEnd    == IsEvent("End") /\ remaining = <<>> /\ UNCHANGED <<arch, remaining, opt>>
 
 TraceNext == TraceNet \/ TraceUpdate \/ TraceOpt \/ TraceEnd
 TraceSpec == TraceInit /\ [][TraceNext]_tvars
